@@ -35,6 +35,7 @@ var nameSchemes = [][]string{
 	{"main.p", "lib/b.p", "b.p", "x/lib/b.p"},
 	{"main.p", "in-main.p", "ain.p", "n.p"},
 	{"main.p", "s 1.p", "S1.P", "s1.ppl"},
+	{"main.p", "cpu%usage.p", "50%d.p", "%s%v.p"},
 }
 
 type setInfo struct {
@@ -44,7 +45,7 @@ type setInfo struct {
 
 func genSet(t *rapid.T) (*sem.Case, *setInfo, map[string]bool) {
 	n := rapid.IntRange(2, 4).Draw(t, "nscripts")
-	names := nameSchemes[rapid.SampledFrom([]int{0, 0, 1, 2, 3}).Draw(t, "namescheme")]
+	names := nameSchemes[rapid.SampledFrom([]int{0, 0, 1, 2, 3, 4}).Draw(t, "namescheme")]
 	c := &sem.Case{Scripts: map[string][]*gen.Node{}, Root: "main.p", Meas: "m"}
 	feat := map[string]bool{}
 	assigned := map[string]map[string]bool{}
